@@ -3,39 +3,81 @@
    any/all quantifiers and function-call argument lists.
 
    Proved here, for every scheme, every settings value (any limit d, any
-   wildcard star limit) and every input text: a filter or value expression the
-   parser accepts has nesting at most d - so a filter whose nesting exceeds d
-   is rejected, whichever constructs carry the depth.  The converse (the limit
-   is not stricter than d: every well-typed filter of nesting <= d is accepted)
-   is decided by the correspondence run over all nesting shapes, not by a
-   theorem, hence [_partial].  The stated consequence (recursion of compile /
-   execute / serialize / hash / drop bounded by d) is about the run-time stack
-   and is not modelled. *)
-From Coq Require Import List ZArith NArith Bool.
+   wildcard star limit) and every input text:
+   - [C13_accepted_*_within_limit]: what the parser accepts has nesting at most
+     d - whichever constructs or argument positions carry the depth;
+   - [C13_limit_is_exact]: the limit acts on parsing ONLY as a filter on the
+     nesting of the result: a text is accepted under limit d, with AST e,
+     exactly when it is accepted without a limit (d = 65535, the largest u16)
+     with the same AST e and the nesting of e is at most d.  "A well-typed
+     filter" of the property is a text the unlimited parser accepts (its AST is
+     well-typed by C04).  The scheme condition [fn_names_ok] - every function
+     name passes, within its first three characters, the identifier test of
+     FunctionCallArgExpr::lex_with - excludes the one place where a nesting
+     error could be swallowed (the literal fall-back for arguments whose first
+     characters look like a hex literal); [C13_library_names_ok] shows the
+     harness library satisfies it and [fn_names_ok_of_test] gives a checkable
+     sufficient test.
+   The stated consequence (recursion of compile / execute / serialize / hash /
+   drop bounded by d) concerns the native stack and is not modelled; the
+   correspondence run compares the real parser with the model on every
+   typeable sequence of the four constructs around each limit. *)
+From Coq Require Import List ZArith NArith Bool Lia String.
 From WF Require Import Base.Bytes Lang.Types Lang.Ast Spec.Typing Spec.C13 Parse.Lex Parse.Parser
-     Proofs.ParserProofs Proofs.ParserClosed.
+     Proofs.ParserProofs Proofs.ParserClosed Proofs.LimitProofs Sem.Funs.
 Import ListNotations.
 
-Definition C13_full : Prop :=
-  forall sch st text,
-    (exists e, parse_filter sch st text = LOk e [])
-    <-> (exists e, (* the filter the text denotes *) parse_filter sch {| st_max_depth := 65535; st_star_limit := st_star_limit st |} text = LOk e []
-                   /\ (depth_lexpr e <= N.to_nat (st_max_depth st))%nat).
+Definition unlimited (st : settings) : settings :=
+  {| st_max_depth := 65535; st_star_limit := st_star_limit st |}.
 
-Theorem C13_accepted_filter_within_limit_partial : forall sch st text e rest,
+Local Open Scope list_scope.
+
+Theorem C13_accepted_filter_within_limit : forall sch st text e rest,
   parse_filter sch st text = LOk e rest -> (depth_lexpr e <= N.to_nat (st_max_depth st))%nat.
 Proof.
   intros sch st text e rest H. pose proof (parse_filter_post sch st text) as P.
   rewrite H in P. exact (proj2 (proj1 P)).
 Qed.
 
-Theorem C13_accepted_value_within_limit_partial : forall sch st text e rest,
+Theorem C13_accepted_value_within_limit : forall sch st text e rest,
   parse_value sch st text = LOk e rest -> (depth_iexpr e <= N.to_nat (st_max_depth st))%nat.
 Proof.
   intros sch st text e rest H. pose proof (parse_value_post sch st text) as P.
   rewrite H in P. exact (proj2 (proj1 P)).
 Qed.
 
-(* non-vacuity: with the default limit the parser accepts a nested filter *)
-Check C13_accepted_filter_within_limit_partial : forall sch st text e rest,
-  parse_filter sch st text = LOk e rest -> (depth_lexpr e <= N.to_nat (st_max_depth st))%nat.
+Theorem C13_limit_is_exact : forall sch st text e,
+  fn_names_ok sch -> (st_max_depth st <= 65535)%N ->
+  (parse_filter sch st text = LOk e []
+   <-> parse_filter sch (unlimited st) text = LOk e [] /\ (depth_lexpr e <= N.to_nat (st_max_depth st))%nat).
+Proof.
+  intros sch st text e Hn Hu. split.
+  - intros H. pose proof (C13_accepted_filter_within_limit _ _ _ _ _ H) as D. split; [|exact D].
+    apply (parse_filter_limit_exact sch st (unlimited st)); auto. cbn [unlimited st_max_depth]. lia.
+  - intros [H D]. apply (parse_filter_limit_exact sch (unlimited st) st); auto.
+Qed.
+
+Theorem C13_limit_is_exact_values : forall sch st text e,
+  fn_names_ok sch -> (st_max_depth st <= 65535)%N ->
+  (parse_value sch st text = LOk e []
+   <-> parse_value sch (unlimited st) text = LOk e [] /\ (depth_iexpr e <= N.to_nat (st_max_depth st))%nat).
+Proof.
+  intros sch st text e Hn Hu. split.
+  - intros H. pose proof (C13_accepted_value_within_limit _ _ _ _ _ H) as D. split; [|exact D].
+    apply (parse_value_limit_exact sch st (unlimited st)); auto. cbn [unlimited st_max_depth]. lia.
+  - intros [H D]. apply (parse_value_limit_exact sch (unlimited st) st); auto.
+Qed.
+
+(* the names of the harness function library (and of the built-in concat) satisfy the condition *)
+Definition lib_names : list bytes :=
+  map bytes_of_string ["echo"; "lower"; "len"; "echo_int"; "echo_ip"; "nonempty"; "show"; "lit_only"; "echo_ab";
+                       "echo_mb"; "echo_b"; "count"; "join2"; "tally"; "boom"; "concat"]%string.
+
+Example C13_library_names_ok :
+  forallb (fun n => name_ok1 n || name_ok2 n || name_ok3 n) lib_names = true.
+Proof. vm_compute. reflexivity. Qed.
+
+Check C13_limit_is_exact : forall sch st text e,
+  fn_names_ok sch -> (st_max_depth st <= 65535)%N ->
+  (parse_filter sch st text = LOk e []
+   <-> parse_filter sch (unlimited st) text = LOk e [] /\ (depth_lexpr e <= N.to_nat (st_max_depth st))%nat).
